@@ -65,9 +65,6 @@ Definition WInv (s : snapshot) (w : world) : Prop :=
 (* no two copies of a volume on one server *)
 Definition NodesOk (w : world) : Prop :=
   forall vid, NoDup (map l_node (locs (w_reps w vid))).
-(* a copy whose replication byte is 0 is the only copy *)
-Definition ZeroRule (w : world) : Prop :=
-  forall vid r, In r (w_reps w vid) -> v_rp (r_info r) = 0%N -> length (w_reps w vid) <= 1.
 
 Lemma upd1_eq : forall {V} (f : N -> V) k v, upd1 f k v k = v.
 Proof. intros. unfold upd1. rewrite N.eqb_refl. reflexivity. Qed.
@@ -168,11 +165,10 @@ Qed.
 
 (* ---------- what maybeMoveOneVolume guarantees about one move ---------- *)
 Definition move_guard (s : snapshot) (w : world) (v : vol) (from to : N) : Prop :=
-  (0 <? v_rp v)%N = true ->
   is_good_move (rp_of_byte (v_rp v)) (locs (w_reps w (v_id v))) (loc_of s from) (loc_of s to) = true.
 
 Lemma move_step_safe : forall s w dt from to v,
-  NoDup (map n_id s) -> WInv s w -> NodesOk w -> ZeroRule w ->
+  NoDup (map n_id s) -> WInv s w -> NodesOk w ->
   In (loc_of s to) (cl s) -> from <> to ->
   In {| r_loc := loc_of s from; r_info := v |} (w_reps w (v_id v)) ->
   move_guard s w v from to ->
@@ -180,12 +176,12 @@ Lemma move_step_safe : forall s w dt from to v,
   let w' := apply_step s w st in
   ok_coloc (prop_step s w st) = true /\
   (rp_trig (rp_of_byte (v_rp v)) = false -> ok_pres (prop_step s w st) = true) /\
-  WInv s w' /\ NodesOk w' /\ ZeroRule w' /\
+  WInv s w' /\ NodesOk w' /\
   In {| r_loc := loc_of s to; r_info := v |} (w_reps w' (v_id v)) /\
   (forall r, In r (w_reps w (v_id v)) -> r_loc r <> loc_of s from -> In r (w_reps w' (v_id v))) /\
   (forall vid', vid' <> v_id v -> w_reps w' vid' = w_reps w vid').
 Proof.
-  intros s w dt from to v Hnd HW HN HZ Hto Hne Hin Hg st w'.
+  intros s w dt from to v Hnd HW HN Hto Hne Hin Hg st w'. unfold move_guard in Hg.
   set (vid := v_id v) in *. set (fl := loc_of s from) in *. set (tl := loc_of s to) in *.
   set (rs := w_reps w vid) in *.
   assert (ids_ok (tl :: locs rs)) as Hids.
@@ -197,13 +193,7 @@ Proof.
   assert (l_node fl = from) as Hnf by apply loc_of_node.
   assert (l_node tl = to) as Hnt by apply loc_of_node.
   (* the target does not hold the volume *)
-  assert (~ In (l_node tl) (map l_node (locs rs))) as Hfresh.
-  { destruct (0 <? v_rp v)%N eqn:Erp.
-    - eapply good_move_no_coloc; eauto.
-    - assert (v_rp v = 0%N) as E0 by (apply N.ltb_ge in Erp; lia).
-      pose proof (HZ vid _ Hin E0) as Hlen. fold rs in Hlen.
-      destruct rs as [|r0 [|r1 rs']]; [destruct Hin| |cbn [length] in Hlen; lia].
-      destruct Hin as [->|[]]. cbn [locs map r_loc]. intros [E|[]]. congruence. }
+  assert (~ In (l_node tl) (map l_node (locs rs))) as Hfresh by (eapply good_move_no_coloc; eauto).
   assert (w_reps w' vid = relocate fl tl rs) as Hrs'.
   { unfold w', st. cbn [apply_step w_reps]. apply upd1_eq. }
   assert (forall vid', vid' <> vid -> w_reps w' vid' = w_reps w vid') as Hoth.
@@ -217,14 +207,8 @@ Proof.
     pose proof (replica_at_unique rs _ (HN vid) Hin) as Hat. cbn [r_loc] in Hat. rewrite Hnf in Hat.
     rewrite Hat. cbn [r_info]. rewrite locs_relocate.
     destruct (valid_placement (rp_of_byte (v_rp v)) (locs rs)) eqn:Ev; auto. cbn [implb].
-    destruct (0 <? v_rp v)%N eqn:Erp.
-    + apply good_move_valid; auto.
-    + assert (v_rp v = 0%N) as E0 by (apply N.ltb_ge in Erp; lia).
-      pose proof (HZ vid _ Hin E0) as Hlen. fold rs in Hlen.
-      destruct rs as [|r0 [|r1 rs']]; [destruct Hin| |cbn [length] in Hlen; lia].
-      destruct Hin as [->|[]]. cbn [locs map r_loc relocate_loc] in *. rewrite loc_eqb_refl.
-      rewrite (valid_single _ tl fl). auto.
-  - split; [|split; [|split; [|split; [|split]]]]; auto.
+    apply good_move_valid; auto.
+  - split; [|split; [|split; [|split]]]; auto.
     + (* WInv *)
       intros vid' r Hr. destruct (N.eq_dec vid' vid) as [->|Hv].
       * rewrite Hrs' in Hr. apply relocate_in_inv in Hr. destruct Hr as [->|Hr]; auto. apply (HW vid); auto.
@@ -233,12 +217,6 @@ Proof.
       intros vid'. destruct (N.eq_dec vid' vid) as [->|Hv].
       * rewrite Hrs'. apply relocate_nodes_ok; auto. apply HN.
       * rewrite Hoth; auto.
-    + (* ZeroRule *)
-      intros vid' r Hr E0. destruct (N.eq_dec vid' vid) as [->|Hv].
-      * rewrite Hrs' in *. rewrite relocate_length.
-        assert (In (r_info r) (map r_info rs)) as Hi by (rewrite <- (relocate_infos fl tl); apply in_map; auto).
-        apply in_map_iff in Hi. destruct Hi as [r' [E1 Hr']]. apply (HZ vid r'); auto. congruence.
-      * rewrite (Hoth vid' Hv) in *. apply (HZ vid' r); auto.
     + rewrite Hrs'. apply relocate_moved; auto. apply HN.
     + intros r Hr Hl. rewrite Hrs'. apply relocate_other; auto.
 Qed.
